@@ -8,7 +8,10 @@ engine `onchain` + spec OnChain.tla.
                    subsets confirm when, who is starved, where the node is reloaded)
     random drivers seeded histories (<= 6 updates, dust / near-dust / large HTLCs both ways, fee
                    changes, three channel types), every revoked index, all eleven block-delivery
-                   styles, fee-estimator changes, rebroadcast timers, reloads
+                   styles, fee-estimator changes, rebroadcast timers, reloads; C07: a family of
+                   anchor-channel holder closes whose claims (anchor bump of the commitment, zero-fee
+                   HTLC transactions) are starved for several bump intervals while the fee
+                   estimators collapse (by more than 5x) and spike between the bumps
     oracle         TLC validates every recorded run against OnChainTrace.tla
 """
 import json, os, random, time, copy
@@ -60,9 +63,27 @@ def convert_script(s, rng):
                 chain.append({"op": "to_expiry", "htlc": 0, "who": [w for w in who if w != 2], "agent_pays": [], "off": 0})
         elif o["op"] == "preimage":
             chain.append({"op": "preimage", "pay": pay_of[o["hash"]]})
+            if rng.random() < 0.5:
+                # the tip is replaced right after the claim was made; is the claim still pursued?
+                chain.append({"op": "reorg", "depth": rng.randrange(1, 3), "add": rng.randrange(1, 3)})
+                chain += [{"op": "rebroadcast", "node": 0}, {"op": "rebroadcast", "node": 1}]
         elif o["op"] == "reload":
             chain.append({"op": "reload", "node": o["node"]})
     chain.append({"op": "settle"})
+    if not revoked and rng.random() < 0.5:
+        # a fee-estimator trajectory around the model's blocks: high when the channel goes to chain,
+        # collapsing / spiking between the blocks
+        est = [rng.choice([1000, 2500, 5000, 20000]), rng.choice([253, 1000, 5000, 20000])]
+        close["est"] = list(est)
+        moved = []
+        for o in chain:
+            if o["op"] in ("mine", "to_expiry") and rng.random() < 0.6:
+                n = rng.randrange(2)
+                r = rng.random()
+                est[n] = max(253, min(40000, est[n] // rng.randrange(6, 40) if r < 0.6 else est[n] * rng.randrange(2, 12)))
+                moved.append({"op": "feerate", "node": n, "v": est[n]})
+            moved.append(o)
+        chain = moved
     return {"cfg": {"chan_type": rng.choice(TYPES), "value": 1000000, "push": rng.choice([100000000, 400000000, 500000000]),
                     "feerate": rng.choice([253, 1000, 2500]), "style": [rng.randrange(11), rng.randrange(11)]},
             "history": hist, "close": close, "chain": chain}
@@ -75,8 +96,16 @@ class View:
     def __init__(self, evs, upto):
         self.txs, self.conf, self.com, self.known = {}, {}, None, [set(), set()]
         self.height, self.live, self.refused = 0, [], set()
+        self.rewinds, self.late, self.rb = [], {}, None   # rewind targets; (node, hash) -> (height, #rewinds before) of a late preimage
         for e in evs[:upto]:
             k = e["ev"]
+            # what the node asked to rebroadcast has covered since (rb of OnChain.tla)
+            if self.rb and k == "bcast" and e["by"] == self.rb[0]:
+                self.rb[1].update(tuple(x) for x, w in zip(e["ins"], e["wal"]) if not w)
+            elif self.rb and k == "bump" and e["node"] == self.rb[0]:
+                self.rb[1].update(tuple(x) for x in e["ops"])
+            elif k in ("block", "commit", "idle", "jump"):
+                self.rb = None
             if k == "open":
                 self.live, self.height = e["live"], e["h"]
             elif k == "bcast" and not e["dup"]:
@@ -93,10 +122,18 @@ class View:
                 self.height = e["h"]
                 for t in e["txs"]:
                     self.conf[t] = e["h"]
-            elif k == "idle":
+            elif k in ("idle", "jump"):
                 self.height = e["h"]
+            elif k == "rewind":
+                self.height = e["h"]
+                self.rewinds.append(e["h"])
+                self.rb = None
             elif k == "preimage":
                 self.known[e["node"]].add(e["hash"])
+                self.late[(e["node"], e["hash"])] = (e["h"], len(self.rewinds))
+                self.rb = None
+            elif k == "rebroadcast":
+                self.rb = (e["node"], set())
             elif k == "ldk_log" and e.get("what") == "bump_refused":
                 self.refused.add(e["node"])
 
@@ -142,6 +179,21 @@ class View:
                 res.append(o)
         return res
 
+    def entitled(self, n):
+        """Unspent HTLC outputs node n is entitled to right now (honest close), with their records."""
+        c = self.com
+        res = []
+        if not c or c["revoked"]:
+            return res
+        for r in c["outs"]:
+            if r["k"] not in ("offered", "received") or r["amt"] < ECON:
+                continue
+            outbound = (n == c["owner"]) == (r["k"] == "offered")
+            ok = (self.height >= r["exp"]) if outbound else (r["hash"] in self.known[n] and self.height < r["exp"])
+            if ok and self.spender((c["tx"], r["v"])) is None:
+                res.append(((c["tx"], r["v"]), r, outbound))
+        return res
+
     def is_split_remainder(self, n, o):
         """o was part of an aggregated claim of n, another input of which a confirmed transaction of
         somebody else has spent."""
@@ -163,6 +215,27 @@ def classify(fail):
         return None
     evs = fail["run_events"]
     v = View(evs, fail["pos_in_run"])
+    if fail.get("inv") == "RebroadcastCovers" and v.rb and v.com:
+        # Which claims did the node not pursue any more when asked to rebroadcast?  All of them preimage
+        # claims made after the close (provide_payment_preimage) at a height the chain was later taken
+        # back below: keyed by the code path that registered the claim.
+        n, cov = v.rb
+        paths = set()
+        for o, r, outbound in v.entitled(n):
+            if o in cov:
+                continue
+            lp = v.late.get((n, r["hash"]))
+            if outbound or lp is None or not any(h < lp[0] for h in v.rewinds[lp[1]:]):
+                return None
+            if n == v.com["owner"]:
+                paths.add("holder_commitment")
+            elif lp[0] - v.com["h"] + 1 >= 6:
+                paths.add("counterparty_commitment_buried")
+            else:
+                return None
+        if len(paths) == 1:
+            return "preimage_claim_lost_on_tip_reorg_" + paths.pop()
+        return None
     unc = [(n, o) for n in v.live for o in v.uncovered(n)]
     if unc and all(v.is_split_remainder(n, o) and n in v.refused for n, o in unc):
         return "split_remainder_abandoned"
@@ -231,6 +304,50 @@ def selftest(pid, wd, tpath, skip_runs=()):
     evs, k = first_run(rebump)
     if evs:
         m = copy.deepcopy(evs); m[k[0]]["pfeerate"] = k[1] * 2 // 3; muts.append(("bump-lowers-feerate", m))
+    # (3b) a repeated BumpTransactionEvent of a still unconfirmed claim asks for a lower feerate
+    def rebump_request(evs):
+        seen, c = {}, set()
+        for i, e in enumerate(evs):
+            if e["ev"] == "block":
+                c |= set(e["txs"])
+            elif e["ev"] == "bump":
+                key = (e["node"], e["claim"])
+                # (none of the outputs the request is for has a confirmed spend: every transaction that
+                #  spends one of them is known to the trace, so look them up among the confirmed ones)
+                spent = any(x["ev"] in ("bcast", "sweep") and x.get("tx") in c and any(o in x["ins"] for o in e["ops"]) for x in evs[:i])
+                if key in seen and seen[key] > 300 and not spent:
+                    return (i, seen[key])
+                seen[key] = e["target"]
+        return None
+    if pid == "C07":
+        evs, k = first_run(rebump_request)
+        if evs:
+            m = copy.deepcopy(evs); m[k[0]]["target"] = k[1] * 4 // 5; muts.append(("bump-request-lowers-target", m))
+    # (3c) asked to rebroadcast its pending claims, the node stays silent about an output it is entitled to
+    def rebroadcast_cover(evs):
+        for i, e in enumerate(evs):
+            if e["ev"] != "rebroadcast":
+                continue
+            n, j = e["node"], i + 1
+            while j < len(evs) and evs[j]["ev"] != "state":
+                j += 1
+            if j >= len(evs):
+                continue
+            ent = [o for o, _, _ in View(evs, j).entitled(n)]
+            keep, drop = set(), []
+            for q in range(i + 1, j):
+                x = evs[q]
+                if x["ev"] == "bcast" and x["by"] == n and not x["dup"]:
+                    keep.update(tuple(a) for a, w in zip(x["ins"], x["wal"]) if not w)
+                elif (x["ev"] == "bcast" and x["by"] == n) or (x["ev"] == "bump" and x["node"] == n):
+                    drop.append(q)
+            if drop and any(o not in keep for o in ent):
+                return drop
+        return None
+    if pid == "C07":
+        evs, k = first_run(rebroadcast_cover)
+        if evs:
+            m = [e for i, e in enumerate(evs) if i not in k]; muts.append(("rebroadcast-ignored", m))
     # (4) a SpendableOutputs event is lost / reports a wrong amount
     evs, k = first_run(lambda evs: next((i for i, e in enumerate(evs) if e["ev"] == "spendable"), None))
     if evs:
@@ -284,7 +401,7 @@ def selftest(pid, wd, tpath, skip_runs=()):
             rejected += 1
         else:
             vlib.log("[selftest] corruption %s was NOT rejected" % name)
-    need = 6 if pid == "C07" else 5
+    need = 8 if pid == "C07" else 5
     if len(muts) < need or rejected != len(muts):
         raise vlib.ToolError("binding self-test: %d of %d corrupted traces rejected (%s)" % (rejected, len(muts), names))
     return {"mutations": len(muts), "rejected": rejected, "kinds": names}
@@ -294,9 +411,12 @@ def selftest(pid, wd, tpath, skip_runs=()):
 def stats_of(tpath):
     st = {"runs": 0, "second_stage_confirmed": 0, "runs_with_second_stage": 0, "claims": 0, "rebumps": 0, "spendable": 0,
           "sweeps": 0, "reloads": 0, "htlc_outputs": 0, "revoked_runs": 0, "honest_runs": 0, "types": {}, "kinds": {},
-          "styles": set(), "blocks": 0, "stale_broadcasts": 0}
+          "styles": set(), "blocks": 0, "stale_broadcasts": 0, "bump_requests": 0, "rebump_requests": 0,
+          "rebumps_after_estimate_fell_5x": {"close": 0, "htlc": 0}, "runs_with_rebump_after_fall": 0,
+          "tip_reorgs": 0, "rebroadcast_requests": 0, "rebroadcast_requests_answered": 0}
     cur = None
     agent, conf = set(), set()
+    asked, fell, rbn = {}, False, None
     with open(tpath) as f:
         for ln in f:
             e = json.loads(ln)
@@ -305,6 +425,7 @@ def stats_of(tpath):
                 if agent & conf:
                     st["runs_with_second_stage"] += 1
                 agent, conf = set(), set()
+                asked, fell = {}, False
                 st["types"][e["chan_type"]] = st["types"].get(e["chan_type"], 0) + 1
                 st["kinds"][e["kind"]] = st["kinds"].get(e["kind"], 0) + 1
                 for s in e["styles"]:
@@ -319,6 +440,27 @@ def stats_of(tpath):
                     st["claims"] += 1
                 if e["by"] < 2 and e.get("stale"):
                     st["stale_broadcasts"] += 1
+            elif e["ev"] == "rewind":
+                st["tip_reorgs"] += 1
+            elif e["ev"] == "rebroadcast":
+                st["rebroadcast_requests"] += 1
+                rbn = e["node"]
+            if rbn is not None and ((e["ev"] == "bcast" and e["by"] == rbn) or (e["ev"] == "bump" and e["node"] == rbn)):
+                st["rebroadcast_requests_answered"] += 1
+                rbn = None
+            elif e["ev"] == "state":
+                rbn = None
+            if e["ev"] == "bump":
+                st["bump_requests"] += 1
+                key = (e["node"], e["claim"])
+                if key in asked:
+                    st["rebump_requests"] += 1
+                    if e["est"] * 5 < asked[key]:
+                        st["rebumps_after_estimate_fell_5x"][e["kind"]] += 1
+                        if not fell:
+                            fell = True
+                            st["runs_with_rebump_after_fall"] += 1
+                asked[key] = e["target"]
             elif e["ev"] == "block":
                 st["blocks"] += 1
                 for t in e["txs"]:
@@ -440,6 +582,16 @@ def run_check(pid, tier, seed, assumptions):
     else:
         if allst["honest_runs"] < 0.9 * allst["runs"] or allst["claims"] < allst["runs"] // 2:
             raise vlib.ToolError("vacuity: drivers do not exercise honest closes with HTLC claims: %s" % allst)
+        # fee-estimator trajectories: externally funded claims re-requested after the estimate collapsed
+        fall = {k: sum(stats[b]["rebumps_after_estimate_fell_5x"][k] for b in stats) for k in ("close", "htlc")}
+        allst["rebumps_after_estimate_fell_5x"] = fall
+        allst["rebump_requests"] = sum(stats[b]["rebump_requests"] for b in stats)
+        if fall["close"] < 20 or fall["htlc"] < 5:
+            raise vlib.ToolError("vacuity: too few anchor-channel claims re-bumped after a sharp fall of the fee estimate: %s" % allst)
+        for k in ("tip_reorgs", "rebroadcast_requests", "rebroadcast_requests_answered"):
+            allst[k] = sum(stats[b][k] for b in stats)
+        if allst["tip_reorgs"] < 10 or allst["rebroadcast_requests_answered"] < 20:
+            raise vlib.ToolError("vacuity: too few tip reorganisations / answered rebroadcast requests: %s" % allst)
     if allst["spendable"] < allst["runs"] or allst["sweeps"] < allst["runs"] or allst["reloads"] == 0:
         raise vlib.ToolError("vacuity: too few SpendableOutputs / sweeps / reloads: %s" % allst)
 
@@ -472,6 +624,11 @@ COMMON_ASSUMPTIONS = [
     "(no minimum relay fee, no RBF rules, no package limits): any valid final transaction can be mined when the script says so",
     "fee estimator and wallet are the test doubles of functional_test_utils (constant feerate changed by the script; "
     "four 1 BTC wallet UTXOs per node for anchor bumping)",
-    "no reorganisations (C11 covers them); channel value 1,000,000 sat; to_self_delay 144; histories of at most 6 updates",
+    "reorganisations only of the newest blocks above every confirmed transaction of the run and not below an HTLC expiry already "
+    "reached (nothing confirmed is ever unconfirmed; C11 covers the rest); channel value 1,000,000 sat; to_self_delay 144; "
+    "histories of at most 6 updates",
+    "BumpTransactionEvents are handled at once by the wallet-backed BumpTransactionEventHandler of functional_test_utils; the "
+    "monotonicity of externally funded claims is judged on the feerate the monitor requests (per claim id), that of the "
+    "monitor's own transactions on the package feerate of the replacements",
     "outputs worth less than 1000 sat are exempt from the liveness obligations (they cannot pay for a standalone claim)",
 ]
